@@ -15,9 +15,9 @@ Section Terminal.
     inv_data f inputs s /\ inv_shape s /\ inv_notify s /\ inv_fresh s /\ inv_token s /\ inv_closed s /\
     inv_depth s /\ inv_bp s.
 
-  Lemma reach_inv_all inputs ext tr s :
+  Lemma reach_inv_all inputs sl ext tr s :
     1 <= F.(f_default_depth) -> Forall depth_ok tr ->
-    run F f (init F inputs ext) tr = Some s -> inv_all inputs s.
+    run F f (init_slow F inputs sl ext) tr = Some s -> inv_all inputs s.
   Proof.
     intros Hd. revert tr s. apply run_invariant.
     - split_and!; [apply inv_data_init|apply inv_shape_init|apply inv_notify_init|apply inv_fresh_init
@@ -45,21 +45,28 @@ Section Terminal.
   Lemma poll_step_some s : poll_step F s <> None.
   Proof. unfold poll_step. destruct (pending s); [destruct (closed s)|]; done. Qed.
 
-  Lemma wake_step_some s w : w <> WIdle -> is_Some (wake_step s w).
-  Proof. destruct w; cbn; try done; intros _; repeat case_match; eauto. Qed.
-
-  Lemma env_disabled s : step F f s AEnv = None -> s.(ewk) = WIdle.
+  Lemma wake_step_some s o w : w <> WIdle -> (w = WSync -> drained s = true) -> is_Some (wake_step s o w).
   Proof.
-    cbn. intros H. destruct (ewk s) eqn:Ee; [done|exfalso..].
-    all: match type of H with context [wake_step ?s0 ?w] =>
-           destruct (wake_step_some s0 w ltac:(done)) as [[w1 s1] E]; rewrite E in H; done end.
+    destruct w; cbn; try done; intros _ Hd; repeat case_match; eauto.
+    all: specialize (Hd eq_refl); congruence.
+  Qed.
+
+  (* a thread calling a PipeWaker can always move, unless it is inside Desync::drop waiting for the queue to drain *)
+  Lemma env_disabled s : step F f s AEnv = None -> s.(ewk) = WIdle \/ (s.(ewk) = WSync /\ drained s = false).
+  Proof.
+    cbn. intros H. destruct (ewk s) eqn:Ee; [by left|exfalso..| ].
+    1-4: match type of H with context [wake_step ?s0 ?o ?w] =>
+           destruct (wake_step_some s0 o w ltac:(done) ltac:(done)) as [[w1 s1] E]; rewrite E in H; done end.
+    right. split; [done|]. cbn in H. destruct (drained s); done.
   Qed.
 
   Lemma cons_disabled s : step F f s ACons = None ->
-    s.(cwk) = WIdle /\ match s.(cst) with CRun _ | CDrop1 | CDrop2 => False | _ => True end.
+    (s.(cwk) = WIdle /\ match s.(cst) with CRun _ | CDrop1 | CDrop2 => False | _ => True end) \/
+    (s.(cwk) = WSync /\ drained s = false).
   Proof.
-    cbn. intros H. destruct (cwk s) eqn:Ee; [cbn in H; split; [done|]; by destruct (cst s)|exfalso..].
-    all: cbn in H; repeat case_match; cbn in H; done.
+    cbn. intros H. destruct (cwk s) eqn:Ee; [left; cbn in H; split; [done|]; by destruct (cst s)|exfalso..| ].
+    1-4: cbn in H; repeat case_match; cbn in H; done.
+    right. split; [done|]. cbn in H. destruct (drained s); done.
   Qed.
 
   Lemma input_finished s :
@@ -75,20 +82,21 @@ Section Terminal.
   Qed.
 
   (* C12.4 *)
-  Theorem terminal_complete inputs ext tr s :
+  Theorem terminal_complete inputs sl ext tr s :
     1 <= F.(f_default_depth) -> Forall depth_ok tr ->
-    run F f (init F inputs ext) tr = Some s ->
+    run F f (init_slow F inputs sl ext) tr = Some s ->
     terminal F f s -> dropped s = false ->
     s.(delivered) = f <$> inputs /\ s.(got_end) = true /\ s.(cst) = CDone.
   Proof.
     intros Hd Hok Hr Hterm Hnd.
-    destruct (reach_inv_all _ _ _ _ Hd Hok Hr) as (HD & Hsh & (Hna & Hnb) & Hfr & Htok & HC & Hdep & Hbp).
+    destruct (reach_inv_all _ _ _ _ _ Hd Hok Hr) as (HD & Hsh & (Hna & Hnb) & Hfr & Htok & HC & Hdep & Hbp).
     destruct HD as (D1 & D2 & D3 & D4 & D5 & D6).
-    destruct HC as (C1 & C2 & C3 & C4 & C5 & C6 & C7 & C8).
+    destruct HC as (C1 & C2 & C3 & C4 & C5 & C6 & C7 & C8 & _).
     assert (Hlk : core_locked s = false) by (unfold core_locked, dropped in *; destruct (cst s); done).
     destruct (prod_disabled s (Hterm AProd eq_refl) Hlk) as [Hrun Hq].
-    pose proof (env_disabled s (Hterm AEnv eq_refl)) as Hew.
-    destruct (cons_disabled s (Hterm ACons eq_refl)) as [Hcw Hcst].
+    assert (Hdr : drained s = true) by (unfold drained; rewrite Hq, Hrun; done).
+    assert (Hew : ewk s = WIdle) by (destruct (env_disabled s (Hterm AEnv eq_refl)) as [?|[_ ?]]; [done|congruence]).
+    destruct (cons_disabled s (Hterm ACons eq_refl)) as [[Hcw Hcst]|[_ ?]]; [|congruence].
     pose proof (input_finished s D2 Hew (Hterm AItem eq_refl) (Hterm AEnd eq_refl)) as Hend.
     pose proof (Hterm ACPoll eq_refl) as Hpoll.
     assert (Hdone : cst s = CDone).
